@@ -69,6 +69,42 @@ func exec(line string) string {
 	case "sha512":
 		d := sha512.Sum512(hb(1))
 		return hx.Hex(d[:])
+	case "genkey":
+		pk, sk, err := vrf.VRFGenerateKey(bytes.NewReader(hb(1)))
+		if err != nil {
+			return "err"
+		}
+		return hx.Hex(pk) + " " + hx.Hex(sk)
+	case "thr": // Proposal025Block + GetRewardBlocks() as the node computes it, for a given Proposal025Block
+		p, _ := u(w[1])
+		save := common.LocalChainConfig.Proposal025Block
+		common.LocalChainConfig.Proposal025Block = p
+		r := threshold()
+		common.LocalChainConfig.Proposal025Block = save
+		return strconv.FormatUint(r, 10)
+	case "gp": // vrfWorker.genProve: proposer side
+		thr, _ := u(w[1])
+		setThreshold(thr)
+		sk := hb(2)
+		ns, _ := strconv.ParseInt(w[4], 10, 64)
+		bhh, _ := u(w[5])
+		wm, _ := u(w[6])
+		t, _ := u(w[7])
+		var pk []byte
+		if len(sk) >= 64 {
+			pk = sk[32:64]
+		}
+		before := time.Unix(1700000000, 0)
+		pi, qn, err := logical.VerifC16GenProve(pk, sk, hb(3), before, before.Add(time.Duration(ns)), bhh, bhh+1, wm, t)
+		switch {
+		case err == nil:
+			return "ok " + hx.Hex(pi) + " " + strconv.FormatUint(qn, 10)
+		case err.Error() == "proof fail":
+			return "proof-fail"
+		case err == ed25519.ErrMalformedSK:
+			return "err-sk"
+		}
+		return "err-other " + strings.ReplaceAll(err.Error(), " ", "_")
 	case "sha3":
 		d := sha3.Sum256(hb(1))
 		return hx.Hex(d[:])
@@ -815,6 +851,45 @@ func (g *gen) forkSession(n int) {
 	}
 }
 
+// flow: key generation, proposer side (genProve) and the verifier on the proposer's output; fork threshold.
+func (g *gen) flow(n int) {
+	r := g.r
+	sec := int64(1000000000)
+	for _, p := range []uint64{0, 1, 63311000, 77920000, 1000000000, 1<<64 - 36001, 1<<64 - 1} {
+		g.do(fmt.Sprintf("thr %d", p))
+	}
+	for i := 0; i < n; i++ {
+		seed := r.Bytes(32)
+		if i < 3 {
+			seed = bytes.Repeat([]byte{byte(i * 0x7f)}, 32)
+		}
+		res := g.do("genkey " + hx.Hex(seed))
+		w := strings.Fields(res)
+		if len(w) != 2 {
+			continue
+		}
+		pk, _ := hx.UnHex(w[0])
+		sk, _ := hx.UnHex(w[1])
+		rnd := r.Bytes(r.Pick(32, 64, 64))
+		ns := int64(r.Intn(7))*sec + int64(r.Intn(int(sec)))
+		thr := g.thr[r.Intn(len(g.thr))]
+		bh := thr + uint64(r.Intn(4)) - 2 // base heights on both sides of the fork threshold, incl. thr itself
+		t := uint64(r.Pick(1, 3, 5, 6, 10, 50, 1000))
+		wm := uint64(r.Pick(0, 0, 1, 2, 3))
+		if r.Chance(1, 12) {
+			sk = sk[:r.Pick(0, 32, 63)] // malformed secret key
+		}
+		res = g.do(fmt.Sprintf("gp %d %s %s %d %d %d %d", thr, hx.Hex(sk), hx.Hex(rnd), ns, bh, wm, t))
+		gw := strings.Fields(res)
+		if len(gw) == 3 && gw[0] == "ok" {
+			pi, _ := hx.UnHex(gw[1])
+			qn, _ := strconv.ParseUint(gw[2], 10, 64)
+			// the verifier checks the block at height bh+1 with the message it builds itself
+			g.do(fmt.Sprintf("vbt %d %s %s %s %d %d %d %d %d %d", thr, hx.Hex(pk), hx.Hex(new(big.Int).SetBytes(pi).Bytes()), hx.Hex(rnd), ns, bh+1, wm, t, 20+qn, 20))
+		}
+	}
+}
+
 func (g *gen) headers(n int) {
 	r := g.r
 	for i := 0; i < n; i++ {
@@ -846,6 +921,11 @@ func (g *gen) headers(n int) {
 			pv = flip(pv, r.Intn(8*len(pv)))
 		}
 		g.do(fmt.Sprintf("vbv %d %s %s %s %d %d %d %d %d", thr, hx.Hex(pk), hx.Hex(pv), hx.Hex(m), h, wm, t, tq, ptq))
+		if r.Chance(1, 3) { // same key and prove value again, for ANOTHER message and for the same one
+			g.do(fmt.Sprintf("vbv %d %s %s %s %d %d %d %d %d", thr, hx.Hex(pk), hx.Hex(pv), hx.Hex(flip(m, r.Intn(256))), h, wm, t, tq, ptq))
+			g.do(fmt.Sprintf("vbt %d %s %s %s %d %d %d %d %d %d", thr, hx.Hex(pk), hx.Hex(pv), hx.Hex(m), 2000000000, h, wm, t, tq, ptq))
+			g.do(fmt.Sprintf("vbv %d %s %s %s %d %d %d %d %d", thr, hx.Hex(pk), hx.Hex(pv), hx.Hex(m), h, wm, t, tq, ptq))
+		}
 	}
 }
 
@@ -904,5 +984,6 @@ func main() {
 	g.vrf(60*scale, 20*scale)
 	g.headers(40 * scale)
 	g.messages(30 * scale)
+	g.flow(60 * scale)
 	fmt.Println("STATS " + out.StatsJSON())
 }
